@@ -1,5 +1,8 @@
 #!/bin/bash
 # dev helper: type-check the harness crate (all modules or the given feature) without codegen
-cd /verif/harness
+python3 -c "import sys; sys.path.insert(0,'/verif/bin'); import vlib; vlib.gen_manifest()"
+cd /verif/.build/crate-main
 feat=${1:-all}
 CARGO_TARGET_DIR=/verif/.build/target/wtc CARGO_NET_OFFLINE=true cargo kani -Z unstable-options --no-codegen --no-default-features --features $feat 2>&1 | grep -E "^error" -A 16 | head -${2:-80}
+# native build of everything (replay tests compile natively; catches e.g. format-string braces)
+CARGO_TARGET_DIR=/verif/.build/target/wreplay CARGO_NET_OFFLINE=true cargo kani playback -Z concrete-playback --only-codegen 2>&1 | grep -E "^error" -A 12 | head -40
